@@ -4,12 +4,19 @@
 //!                index buffers compared exactly with the Lean model of basic_shapes.rs; oracle:
 //!                analytic — every circle vertex on the circle, sagitta of every boundary chord
 //!                ≤ tolerance, triangle/vertex counts, rectangle = its two triangles.
+//! * `helpers:32` the shape helpers of the path builders (`PathBuilder::{add_rectangle, add_circle,
+//!                add_ellipse, add_rounded_rectangle, add_polygon}`) driven on a recording builder:
+//!                the recorded calls are compared exactly with the Lean model (Model/Path/Shapes.lean);
+//!                `FillBuilder::add_circle` (own routine, not recordable): the modelled calls, replayed
+//!                through the FillBuilder, must give bit-for-bit the mesh of the real routine.
 //! * `chk_curve`  curved paths, shape helpers of the path builder / `tessellate_ellipse`, and pairs
 //!                of sub-paths sharing a curved edge: the real fill output is handed to the Lean
 //!                slab checker together with an independent fine flattening of the EXACT boundary
 //!                (certified deviation ε_ref), band = tolerance + ε_ref + Bézier-arc allowance.
 
-use lyon_path::builder::BorderRadii;
+use lyon_path::builder::{BorderRadii, PathBuilder};
+use lyon_path::polygon::Polygon;
+use lyon_path::{Attributes, EndpointId, NO_ATTRIBUTES};
 use lyon_path::geom::{Arc, CubicBezierSegment, QuadraticBezierSegment};
 use lyon_path::math::{point, vector, Angle, Box2D, Point, Vector};
 use lyon_path::traits::{Build, SvgPathBuilder};
@@ -322,11 +329,31 @@ fn curve_case(ctx: &mut Ctx) {
         let rnd: Vec<Point> = (0..24).map(|_| pr(rng)).collect();
         let ncurves = rng.range(2, 3) as usize;
         let kinds: Vec<u64> = (0..4).map(|_| rng.below(3)).collect();
-        let names = ["curves", "curves2", "shared-edge", "circle", "ellipse", "tess-ellipse", "rounded-rect", "tess-circle"];
+        // SVG elliptical arcs (drawn after everything else so that the other kinds keep their inputs)
+        let svg = rng.chance(1, 4);
+        let kind = if svg { 8 } else { kind };
+        let svg_layout = rng.below(5);
+        let chord_len = rng.uniform(2.0, 12.0);
+        let chord_dir = rng.uniform(0.0, std::f64::consts::TAU);
+        let svg_d = vector((chord_len * chord_dir.cos()) as f32, (chord_len * chord_dir.sin()) as f32);
+        let svg_p1 = c + svg_d;
+        let (svg_a1, what1) = gen_svg_arc(rng, c, svg_p1);
+        let (svg_a2, what2) = gen_svg_arc(rng, svg_p1, c);
+        let names = ["curves", "curves2", "shared-edge", "circle", "ellipse", "tess-ellipse", "rounded-rect", "tess-circle", "svg-arc"];
         let name = names[kind as usize];
         let mut args = Out::new();
         args.t(name).f(tol).u(if rule == FillRule::EvenOdd { 0 } else { 1 }).p(c).f(r).f(r2).f(rot);
-        let tag = format!("curve {} tol={}", name, tol);
+        if svg {
+            args.t("layout").u(svg_layout).t("d").v(svg_d).t("p2").p(rnd[0]);
+            for a in [&svg_a1, &svg_a2] {
+                args.t("A").v(a.radii).f(a.rot).b(a.large).b(a.sweep).p(a.to);
+            }
+        }
+        let tag = if svg {
+            format!("curve svg-arc {}{} layout={} tol={}", what1, if svg_layout == 2 { format!("+{}", what2) } else { String::new() }, svg_layout, tol)
+        } else {
+            format!("curve {} tol={}", name, tol)
+        };
         (args, tag, move || {
             let opts = FillOptions::tolerance(tol).with_fill_rule(rule);
             let mut tess = FillTessellator::new();
@@ -452,6 +479,69 @@ fn curve_case(ctx: &mut Ctx) {
                     let mut bb = BuffersBuilder::new(&mut mesh, Positions);
                     (tess.tessellate_path(&path, &opts, &mut bb).map_err(|e| format!("{:?}", e)), edges, eps, 3e-3 * rad as f64)
                 }
+                8 => {
+                    // closed paths made of SVG elliptical arcs (+ lines), built with the SVG builder;
+                    // reference = the exact arcs of the SVG implementation notes (F.6.5 / F.6.6)
+                    let p0 = c;
+                    let p2 = rnd[0];
+                    let mut b = Path::svg_builder();
+                    let mut pts: Vec<Point> = Vec::new();
+                    let mut eps = 0.0f64;
+                    let mut rmax = 0.0f64;
+                    let mut arc_ref = |pts: &mut Vec<Point>, from: Point, a: &SvgArcCmd| {
+                        let (ap, e, rm) = svg_arc_points(from, a, eps_t);
+                        eps = eps.max(e);
+                        rmax = rmax.max(rm);
+                        // `from` is already the last point of the outline
+                        pts.extend_from_slice(&ap[1..]);
+                    };
+                    let fl = |a: &SvgArcCmd| ArcFlags { large_arc: a.large, sweep: a.sweep };
+                    b.move_to(p0);
+                    pts.push(p0);
+                    match svg_layout {
+                        0 => {
+                            b.arc_to(svg_a1.radii, Angle::radians(svg_a1.rot), fl(&svg_a1), svg_a1.to);
+                            arc_ref(&mut pts, p0, &svg_a1);
+                        }
+                        1 => {
+                            b.arc_to(svg_a1.radii, Angle::radians(svg_a1.rot), fl(&svg_a1), svg_a1.to);
+                            arc_ref(&mut pts, p0, &svg_a1);
+                            b.line_to(p2);
+                            pts.push(p2);
+                        }
+                        2 => {
+                            b.arc_to(svg_a1.radii, Angle::radians(svg_a1.rot), fl(&svg_a1), svg_a1.to);
+                            arc_ref(&mut pts, p0, &svg_a1);
+                            b.arc_to(svg_a2.radii, Angle::radians(svg_a2.rot), fl(&svg_a2), svg_a2.to);
+                            arc_ref(&mut pts, svg_a1.to, &svg_a2);
+                        }
+                        3 => {
+                            // relative form: the end point is current + d (f32), exactly as the builder adds it
+                            b.relative_arc_to(svg_a1.radii, Angle::radians(svg_a1.rot), fl(&svg_a1), svg_d);
+                            arc_ref(&mut pts, p0, &svg_a1);
+                            b.line_to(p2);
+                            pts.push(p2);
+                        }
+                        _ => {
+                            // the arc does not start at the first point of the sub-path
+                            b.line_to(p2);
+                            pts.push(p2);
+                            let a = SvgArcCmd { to: p2 + svg_d, ..svg_a1 };
+                            b.relative_arc_to(a.radii, Angle::radians(a.rot), fl(&a), svg_d);
+                            arc_ref(&mut pts, p2, &a);
+                        }
+                    }
+                    b.close();
+                    let path = b.build();
+                    if pts.last() == pts.first() {
+                        pts.pop();
+                    }
+                    let m = pts.len();
+                    let edges: Vec<(Point, Point)> = (0..m).map(|i| (pts[i], pts[(i + 1) % m])).collect();
+                    let sc = pts.iter().fold(1.0f64, |m, a| m.max(a.x.abs() as f64).max(a.y.abs() as f64));
+                    let mut bb = BuffersBuilder::new(&mut mesh, Positions);
+                    (tess.tessellate_path(&path, &opts, &mut bb).map_err(|e| format!("{:?}", e)), edges, eps + 2e-6 * sc, 3e-3 * rmax)
+                }
                 _ => {
                     let (e, eps) = ellipse_edges(c, vector(r, r), 0.0, true, eps_t);
                     let mut bb = BuffersBuilder::new(&mut mesh, Positions);
@@ -487,6 +577,254 @@ fn curve_case(ctx: &mut Ctx) {
     });
 }
 
+// ---------------------------------------------------------------------------------------------
+// helpers:32 — the shape helpers of the path builders as sequences of builder calls
+
+/// A `PathBuilder` that only records the calls it receives (canonical tokens).
+struct Recorder {
+    o: Out,
+    n: u32,
+}
+
+impl Recorder {
+    fn new() -> Recorder {
+        Recorder { o: Out::new(), n: 0 }
+    }
+    fn id(&mut self) -> EndpointId {
+        self.n += 1;
+        EndpointId(self.n - 1)
+    }
+}
+
+impl PathBuilder for Recorder {
+    fn num_attributes(&self) -> usize {
+        0
+    }
+    fn begin(&mut self, at: Point, _: Attributes) -> EndpointId {
+        self.o.t("B").p(at);
+        self.id()
+    }
+    fn end(&mut self, close: bool) {
+        self.o.t("E").b(close);
+    }
+    fn line_to(&mut self, to: Point, _: Attributes) -> EndpointId {
+        self.o.t("L").p(to);
+        self.id()
+    }
+    fn quadratic_bezier_to(&mut self, ctrl: Point, to: Point, _: Attributes) -> EndpointId {
+        self.o.t("Q").p(ctrl).p(to);
+        self.id()
+    }
+    fn cubic_bezier_to(&mut self, ctrl1: Point, ctrl2: Point, to: Point, _: Attributes) -> EndpointId {
+        self.o.t("C").p(ctrl1).p(ctrl2).p(to);
+        self.id()
+    }
+}
+
+/// Transcription of the Lean model `PathShapes.fillAddCircle` (the calls `FillBuilder::add_circle`
+/// is modelled to make).  It is tied bit-for-bit to the model by the `helpers` family, and replayed
+/// through `FillBuilder::{begin, quadratic_bezier_to, line_to, end}`: the real
+/// `FillBuilder::add_circle` must produce exactly the same mesh.
+#[derive(Clone, Copy)]
+enum FbCall {
+    B(Point),
+    L(Point),
+    Q(Point, Point),
+    E(bool),
+}
+
+fn fill_add_circle_calls(c: Point, radius: f32, positive: bool) -> Vec<FbCall> {
+    let r = radius.abs();
+    let dir: f32 = if positive { 1.0 } else { -1.0 };
+    let d = r * 0.41421357f32;
+    let k = std::f32::consts::FRAC_1_SQRT_2;
+    let off = |x: f32, y: f32| c + vector(x, y);
+    let diag = |sx: f32, sy: f32| c + vector(sx, sy) * r * k;
+    let start = off(-r, 0.0);
+    let m = [diag(-1.0, -dir), off(0.0, -r * dir), diag(1.0, -dir), off(r, 0.0), diag(1.0, dir), off(0.0, r * dir), diag(-1.0, dir)];
+    let ctrl = [off(-r, -d * dir), off(-d, -r * dir), off(d, -r * dir), off(r, -d * dir), off(r, d * dir), off(d, r * dir), off(-d, r * dir), off(-r, d * dir)];
+    let mut v = Vec::new();
+    for i in 0..8 {
+        let a = if i == 0 { start } else { m[i - 1] };
+        let b = if i == 7 { start } else { m[i] };
+        v.push(FbCall::B(a));
+        v.push(FbCall::Q(ctrl[i], b));
+        v.push(FbCall::E(false));
+    }
+    v.push(FbCall::B(start));
+    for q in m.iter() {
+        v.push(FbCall::L(*q));
+    }
+    v.push(FbCall::E(true));
+    v
+}
+
+fn helper_case(ctx: &mut Ctx) {
+    ctx.case("helpers:32", |rng| {
+        let kind = rng.below(7);
+        let positive = rng.chance(1, 2);
+        let lattice = rng.chance(1, 3);
+        let mut co = |rng: &mut Rng, span: f64| if lattice { rng.range(-(span as i64), span as i64) as f32 * 0.5 } else { rng.uniform(-span, span) as f32 };
+        let c = point(co(rng, 40.0), co(rng, 40.0));
+        let size = vector(
+            match rng.below(8) {
+                0 => 0.0,
+                1 => -co(rng, 20.0).abs(),
+                _ => co(rng, 30.0).abs(),
+            },
+            match rng.below(8) {
+                0 => 0.0,
+                1 => -co(rng, 20.0).abs(),
+                _ => co(rng, 30.0).abs(),
+            },
+        );
+        let mx = c + size;
+        let mut rad = |rng: &mut Rng, scale: f32| -> f32 {
+            match rng.below(10) {
+                0 => 0.0,
+                1 => -0.0,
+                2 => -(rng.uniform(0.0, 1.5) as f32) * scale,
+                3 => rng.log_uniform(-3.0, 3.0).abs() as f32,
+                4 => scale * 0.5,
+                5 => scale,
+                6 => scale * rng.uniform(0.5, 3.0) as f32,
+                _ => scale * rng.uniform(0.0, 0.5) as f32,
+            }
+        };
+        let side = size.x.abs().min(size.y.abs()).max(0.5);
+        let r = rad(rng, 10.0);
+        let uniform_radii = rng.chance(1, 3);
+        let r0 = rad(rng, side);
+        let radii4 = if uniform_radii { [r0; 4] } else { [r0, rad(rng, side), rad(rng, side), rad(rng, side)] };
+        let eradii = vector(rad(rng, 10.0), rad(rng, 10.0));
+        let rot = match rng.below(5) {
+            0 => 0.0,
+            1 => *rng.pick(&[std::f32::consts::FRAC_PI_2, std::f32::consts::PI, -std::f32::consts::FRAC_PI_4, 100.0]),
+            _ => rng.uniform(-7.0, 7.0) as f32,
+        };
+        let npts = rng.below(7) as usize;
+        let closed = rng.chance(2, 3);
+        let pts: Vec<Point> = (0..npts).map(|_| point(co(rng, 40.0), co(rng, 40.0))).collect();
+        let tol = *rng.pick(&[0.01f32, 0.05, 0.2]);
+        let names = ["rect", "circle", "ellipse", "rrect", "polygon", "fillcircle", "rrect"];
+        let name = names[kind as usize];
+        let mut args = Out::new();
+        args.t(name).b(positive);
+        match kind {
+            0 => {
+                args.p(c).p(mx);
+            }
+            1 | 5 => {
+                args.p(c).f(r);
+            }
+            2 => {
+                args.p(c).v(eradii).f(rot);
+            }
+            3 | 6 => {
+                args.p(c).p(mx);
+                for x in radii4.iter() {
+                    args.f(*x);
+                }
+            }
+            _ => {
+                args.b(closed).u(npts as u64);
+                for q in pts.iter() {
+                    args.p(*q);
+                }
+            }
+        }
+        let detail = match kind {
+            0 => if size.x <= 0.0 || size.y <= 0.0 { "degenerate-box" } else { "box" }.to_string(),
+            1 | 5 => if r == 0.0 { "trivial zero-radius" } else if r < 0.0 { "negative-radius" } else { "radius" }.to_string(),
+            2 => if eradii.x <= 0.0 || eradii.y <= 0.0 { "degenerate-radii" } else if rot == 0.0 { "unrotated" } else { "rotated" }.to_string(),
+            3 | 6 => {
+                let big = radii4.iter().any(|x| x.abs() * 2.0 > side);
+                let zero = radii4.iter().any(|x| *x == 0.0);
+                let neg = radii4.iter().any(|x| *x < 0.0);
+                format!("{}{}{}{}", if uniform_radii { "uniform" } else { "mixed" }, if big { " clamped" } else { "" }, if zero { " zero" } else { "" }, if neg { " negative" } else { "" })
+            }
+            _ => if npts == 0 { "trivial empty".to_string() } else { format!("n={}", npts.min(3)) },
+        };
+        let tag = format!("helpers {} {} {}", name, if positive { "positive" } else { "negative" }, detail);
+        (args, tag, move || {
+            let w = if positive { Winding::Positive } else { Winding::Negative };
+            let rect = Box2D { min: c, max: mx };
+            let mut rec = Recorder::new();
+            let mut orc = Oracle::new();
+            match kind {
+                0 => rec.add_rectangle(&rect, w, NO_ATTRIBUTES),
+                1 => rec.add_circle(c, r, w, NO_ATTRIBUTES),
+                2 => rec.add_ellipse(c, eradii, Angle::radians(rot), w, NO_ATTRIBUTES),
+                3 | 6 => rec.add_rounded_rectangle(
+                    &rect,
+                    &BorderRadii { top_left: radii4[0], top_right: radii4[1], bottom_left: radii4[2], bottom_right: radii4[3] },
+                    w,
+                    NO_ATTRIBUTES,
+                ),
+                4 => rec.add_polygon(Polygon { points: &pts, closed }, NO_ATTRIBUTES),
+                _ => {
+                    // FillBuilder::add_circle cannot be recorded (it drives its own event queue):
+                    // print the transcription of the model and demand that replaying it through the
+                    // FillBuilder gives exactly the mesh of the real routine.
+                    let calls = fill_add_circle_calls(c, r, positive);
+                    for k in calls.iter() {
+                        match *k {
+                            FbCall::B(p) => {
+                                rec.begin(p, NO_ATTRIBUTES);
+                            }
+                            FbCall::L(p) => {
+                                rec.line_to(p, NO_ATTRIBUTES);
+                            }
+                            FbCall::Q(k, p) => {
+                                rec.quadratic_bezier_to(k, p, NO_ATTRIBUTES);
+                            }
+                            FbCall::E(cl) => rec.end(cl),
+                        }
+                    }
+                    let opts = FillOptions::tolerance(tol);
+                    let mut real = Mesh::new();
+                    let mut replay = Mesh::new();
+                    let mut tess = FillTessellator::new();
+                    let r1 = {
+                        let mut bb = BuffersBuilder::new(&mut real, Positions);
+                        let mut b = tess.builder(&opts, &mut bb);
+                        b.add_circle(c, r, w);
+                        b.build().map_err(|e| format!("{:?}", e))
+                    };
+                    let r2 = {
+                        let mut bb = BuffersBuilder::new(&mut replay, Positions);
+                        let mut b = tess.builder(&opts, &mut bb);
+                        for k in calls.iter() {
+                            match *k {
+                                FbCall::B(p) => {
+                                    b.begin(p);
+                                }
+                                FbCall::L(p) => {
+                                    b.line_to(p);
+                                }
+                                FbCall::Q(k, p) => {
+                                    b.quadratic_bezier_to(k, p);
+                                }
+                                FbCall::E(cl) => b.end(cl),
+                            }
+                        }
+                        b.build().map_err(|e| format!("{:?}", e))
+                    };
+                    orc.check(r1 == r2, "helpers.fillbuilder.add_circle/same-result-as-model-calls", "generic", || format!("{:?} vs {:?}", r1, r2));
+                    let same_v = real.vertices.len() == replay.vertices.len() && real.vertices.iter().zip(replay.vertices.iter()).all(|(a, b)| a.x.to_bits() == b.x.to_bits() && a.y.to_bits() == b.y.to_bits());
+                    orc.check(same_v && real.indices == replay.indices, "helpers.fillbuilder.add_circle/same-mesh-as-model-calls", "generic", || {
+                        format!("real {} vertices {} triangles, replay of the modelled calls {} vertices {} triangles", real.vertices.len(), real.indices.len() / 3, replay.vertices.len(), replay.indices.len() / 3)
+                    });
+                    if r != 0.0 && r.abs() > 4.0 * tol {
+                        orc.check(real.vertices.len() >= 8, "helpers.fillbuilder.add_circle/nonempty", "generic", || format!("{} vertices", real.vertices.len()));
+                    }
+                }
+            }
+            CaseOut { imp: rec.o, orcl: orc.verdict }
+        })
+    });
+}
+
 fn rng_f(v: &[Point], i: usize) -> f32 {
     v[i].x
 }
@@ -497,9 +835,13 @@ fn main() {
     for _ in 0..n {
         shape_case(&mut ctx);
     }
-    let n = ctx.n(128, 8000);
+    let n = ctx.n(176, 11000);
     for _ in 0..n {
         curve_case(&mut ctx);
+    }
+    let n = ctx.n(2000, 60000);
+    for _ in 0..n {
+        helper_case(&mut ctx);
     }
     ctx.finish();
 }
